@@ -22,8 +22,12 @@ def ob_remove(n):
         W.mv['removed_id'] = target.id
         msg = W.mk.variant('msg::ExecuteMsg', 'RemoveValidator', crate=W.crate, address=target)
 
+        has_d = W.bv('removed_has_delegation')
+
         def q(T):
-            return {'delegations': [{'validator': T.string(v), 'amount': T.value(U128(a)), 'denom': 'usei'} for v, a in zip(W.vals, W.del_amounts)]}
+            return {'delegations': [{'validator': T.string(v), 'amount': T.value(U128(a)), 'denom': 'usei'} for v, a in zip(W.vals, W.del_amounts)],
+                    'full_delegations': [{'validator': '*', 'present': T.leaf(has_d, 'bool'), 'amount': T.value(U128(W.removed_amount)),
+                                          'can_redelegate': T.value(U128(W.can_redelegate))}]}
         raw_scenario(W, 'execute', msg, W.owner, querier=q)
         nok = 0
         registered = z3.Or(*[target.id == v.id for v in W.vals])
